@@ -12,11 +12,11 @@ theorem procEnter_g5 {cfg : Cfg} {s : St} (hs : G cfg s) (hp : s.proc = none) (h
     (hb : s.msgBlock = true ∨ s.stopping = true ∨ s.startD = .none)
     (blk rest' : List Msg) (m : Msg) (hlo : lastOff blk = some m.off) :
     G1 (procEnter blk rest' m.off s) ∧ Gsf (procEnter blk rest' m.off s) ∧ Gres (procEnter blk rest' m.off s) ∧
-      Gack (procEnter blk rest' m.off s) ∧ Gfo (procEnter blk rest' m.off s) := by
+      Gack (procEnter blk rest' m.off s) ∧ Gfo (procEnter blk rest' m.off s) ∧ Ggr cfg (procEnter blk rest' m.off s) := by
   unfold procEnter
   obtain ⟨⟨h1, h2, h2b, h3, h4, h5, h6, h7, h8, h9, h10, h11, h12, h13⟩,
-          ⟨k1, k2, k3, k4, k5, k6⟩, ⟨r1, r2⟩, ⟨a1, a2, a3⟩, ⟨f1, f2, f3⟩, -, -⟩ := hs
-  exact ⟨by g1_fields, by gsf_fields, by gres_fields, by gack_fields, by gfo_fields⟩
+          ⟨k1, k2, k3, k4, k5, k6⟩, ⟨r1, r2⟩, ⟨a1, a2, a3⟩, ⟨f1, f2, f3⟩, -, ⟨w1, w2, w3⟩, -⟩ := hs
+  exact ⟨by g1_fields, by gsf_fields, by gres_fields, by gack_fields, by gfo_fields, by ggr_fields⟩
 
 /-- entering the processor call -/
 theorem procEnter_g {cfg : Cfg} {s : St} (hs : G cfg s) (hp : s.proc = none) (hf : s.frame = none)
@@ -27,8 +27,8 @@ theorem procEnter_g {cfg : Cfg} {s : St} (hs : G cfg s) (hp : s.proc = none) (hf
   have hlo := lastOff_getLast _ _ hl
   have hi := hs.inc
   have hpay := hs.pay
-  obtain ⟨g1, g2, g3, g4, g5⟩ := procEnter_g5 hs hp hf hb (rest.take n) (rest.drop n) m hlo
-  refine ⟨g1, g2, g3, g4, g5, ?_, ?_⟩
+  obtain ⟨g1, g2, g3, g4, g5, g6⟩ := procEnter_g5 hs hp hf hb (rest.take n) (rest.drop n) m hlo
+  refine ⟨g1, g2, g3, g4, g5, ?_, g6, ?_⟩
   · unfold procEnter
     have hst := payStep_proc (runR C02.payStep {} s.out) (rest.take n) (fun x hx => hlp x (List.mem_of_mem_take hx))
     constructor
@@ -44,7 +44,7 @@ theorem procEnter_g {cfg : Cfg} {s : St} (hs : G cfg s) (hp : s.proc = none) (hf
     · intro r hr x hx
       simp only [emit, runR_cons, hst]
       exact hpay.payParked r hr x hx
-  clear g1 g2 g3 g4 g5
+  clear g1 g2 g3 g4 g5 g6
   unfold procEnter
   intro hP
   obtain ⟨i1, i2a, i2b, i2c, i2d, i2e, i3, i4, i5, i6, i7⟩ := hi hP
@@ -221,7 +221,7 @@ theorem procBody_good (k : St → St × Bool) {s0 : St} (n : Nat) (rest : List M
       cases hpp : s3.proc with
       | none => rfl
       | some g => exact absurd (p3 (by rw [hpp]; rfl)) (by rw [hres]; simp)
-    have g4 := (handleProcessorError_pres cfg (.ext kd t)).step g3
+    have g4 := (handleProcessorError_pres cfg (.ext kd t) (by intro h; cases h)).step g3
     obtain ⟨k1, k2, k3, k4⟩ := handleProcessorError_keeps (.ext kd t) s3
     split
     · exact g4
@@ -236,7 +236,7 @@ theorem procBody_good (k : St → St × Bool) {s0 : St} (n : Nat) (rest : List M
     simp only []
     split
     · exact g3
-    · exact (handleProcessorError_pres cfg _).step g3
+    · exact (handleProcessorError_pres cfg _ (by intro h; cases h)).step g3
 
 /-- The processing loop, entered with no generator suspended or executing. -/
 theorem procLoop_good : ∀ (fuel : Nat) (rest : List Msg) {s0 s : St}, Good cfg s0 s → LoopPre s →
@@ -286,8 +286,11 @@ include hc in
 /-- `_handle_fetch_response` after `self._request_d = None` -/
 theorem fetchTail_good (via : Bool) (r : Reply) {s0 s : St} (h : Good cfg s0 s) (hp : s.proc = none) (hf : s.frame = none)
     (hq : activeReq s.requestD = none) (hpk : s.parked = none) (hrq : s.requestD = .none)
-    (hr : EnvHyp.sane → ReplyOk r) (hrs : ∀ x ∈ r.msgs, x ∈ (runR C02.payStep {} s.out).seen) :
+    (hr : EnvHyp.sane → ReplyOk r) (hrs : ∀ x ∈ r.msgs, x ∈ (runR C02.payStep {} s.out).seen)
+    (hgr : (runR (C14.grStep cfg.bufMax) { buf := cfg.bufInit } s.out).buf = s.bufferSize ∧
+      (r.tail = .small → 0 < (runR (C14.grStep cfg.bufMax) { buf := cfg.bufInit } s.out).credit)) :
     Good cfg s0 (fetchTail cfg inner via r s) := by
+  have hge := grow_eq_spec s.bufferSize cfg.bufMax
   unfold fetchTail
   simp only []
   obtain ⟨e1, e2, e3⟩ := extract_spec r.msgs s.fetchOffset
@@ -320,9 +323,18 @@ theorem fetchTail_good (via : Bool) (r : Reply) {s0 s : St} (h : Good cfg s0 s) 
   have h1 : Good cfg s0 { s with fetchOffset := fo' } := by leaf h
   split
   · exact (retryFetch_pres cfg _).step (deliverBlock_good hin _ h1 hp hf (hL _ rfl rfl hrq) (hY _ rfl))
-  · split
-    · exact (retryFetch_pres cfg _).step (deliverBlock_good hin _ (by leaf h) hp hf (hL _ rfl rfl hrq) (hY _ rfl))
-    · have h2 := (startErrback_pres cfg .tooSmall).step h1
+  · rename_i hsmall
+    have hcr := hgr.2 hsmall
+    have hbuf := hgr.1
+    split
+    · rename_i b hb
+      exact (retryFetch_pres cfg _).step (deliverBlock_good hin _ (by leaf h) hp hf (hL _ rfl rfl hrq) (hY _ rfl))
+    · rename_i hb
+      have h2 : Good cfg s0 (startErrback .tooSmall { s with fetchOffset := fo' }) := by
+        unfold startErrback
+        split
+        · leaf h
+        · exact h1
       have hk := startErrback_keeps .tooSmall { s with fetchOffset := fo' }
       have hki := startErrback_keepsI cfg .tooSmall { s with fetchOffset := fo' }
       have k1 := hk.1
@@ -331,7 +343,7 @@ theorem fetchTail_good (via : Bool) (r : Reply) {s0 s : St} (h : Good cfg s0 s) 
       split
       · have hcm := deliverBlock_calm (cfg := cfg) hc msgs _
           (calm_ok.upd (s := { s with fetchOffset := fo' }) ⟨hp, hq, hpk⟩ hk)
-        exact handleFetchError_good cfg _ h3 hcm.1 hcm.2 (fun _ ho => by simp [Fail.isOutOfRange] at ho)
+        exact handleFetchError_good cfg _ (by intro h; cases h) h3 hcm.1 hcm.2 (fun _ ho => by simp [Fail.isOutOfRange] at ho)
       · exact h3
   · rename_i kd t htail
     have h3 := deliverBlock_good hin msgs h1 hp hf (hL _ rfl rfl hrq) (hY _ rfl)
@@ -339,7 +351,7 @@ theorem fetchTail_good (via : Bool) (r : Reply) {s0 s : St} (h : Good cfg s0 s) 
     · exact h3
     · have hcm := deliverBlock_calm (cfg := cfg) hc msgs
         { s with fetchOffset := fo' } ⟨hp, hq, hpk⟩
-      refine handleFetchError_good cfg _ h3 hcm.1 hcm.2 (fun hP ho => ?_)
+      refine handleFetchError_good cfg _ (by intro h; cases h) h3 hcm.1 hcm.2 (fun hP ho => ?_)
       have : kd = .outOfRange := by
         cases kd <;> simp [Fail.isOutOfRange] at ho ⊢
       subst this
@@ -370,8 +382,18 @@ theorem handleFetchResponse_good (k : Nat) (r : Reply) (c : Bool) {s : St} (hs :
         | none => rfl
         | some r' => exact absurd (hs.sf.parkedBlock (by rw [hpp]; rfl)) hb
       unfold fetchBody
+      have hsync : (runR (C14.grStep cfg.bufMax) { buf := cfg.bufInit } s.out).buf = s.bufferSize := by
+        rcases hs.gr.grSync with h | h
+        · exact h
+        · exact absurd hreq (h.2.2.1 k c)
       exact fetchTail_good hin hc false r (by leaf hx) hp hf rfl hpk rfl hr
         (fun x hx => by simp [runR_cons, C02.payStep, hx])
+        (by
+          simp only [runR_cons, C14.grStep]
+          split
+          · exact ⟨hsync, fun _ => Nat.succ_pos _⟩
+          · rename_i hns
+            exact ⟨hsync, fun h => absurd (by simp [h]) hns⟩)
 
 include hc in
 /-- the end of `_process_messages` when resumed -/
@@ -387,8 +409,12 @@ theorem finishFull_good {s0 s : St} (h : Good cfg s0 s) (hp : s.proc = none) (hf
       split
       · leaf h
       · unfold fetchBody
+        have hsync : (runR (C14.grStep cfg.bufMax) { buf := cfg.bufInit } s.out).buf = s.bufferSize := by
+          rcases h.1.gr.grSync with h' | h'
+          · exact h'
+          · rw [h'.2.2.2] at hr; cases hr
         exact fetchTail_good hin hc true _ (by leaf h) hp hf rfl rfl rfl (fun hP => (h.1.inc hP).parkedNN _ hr)
-          (h.1.pay.payParked _ hr)
+          (h.1.pay.payParked _ hr) ⟨hsync, h.1.gr.grParked _ hr⟩
     · leaf h
   · exact h
 
@@ -410,7 +436,8 @@ theorem gen_loopPay {s : St} (hs : G cfg s) (g : Gen) (hp : s.proc = some g) (x 
 theorem procFired_good (g : Gen) (r : Option Fail) (x : Item) {s : St} (hs : G cfg s) (hp : s.proc = some g)
     (hb : s.msgBlock = true ∨ s.stopping = true)
     (hlc : x = .ob .procCancel ∨ (runR C03.ackStep {} s.out).lc = s.lastCommitted)
-    (hx : (r = none ∧ x = .ev .procOk) ∨ (r.isSome ∧ ((∃ k t, x = .ev (.procErr k t)) ∨ x = .ob .procCancel))) :
+    (hx : (r = none ∧ x = .ev .procOk) ∨ (r.isSome ∧ ((∃ k t, x = .ev (.procErr k t)) ∨ x = .ob .procCancel)))
+    (hnts : ∀ f, r = some f → f ≠ .tooSmall) :
     Good cfg s (procFired cfg g r { s with out := x :: s.out }) ∧
       (procFired cfg g r { s with out := x :: s.out }).proc = none ∧
       ((procFired cfg g r { s with out := x :: s.out }).msgBlock = true ∨
@@ -451,7 +478,7 @@ theorem procFired_good (g : Gen) (r : Option Fail) (x : Item) {s : St} (hs : G c
           leaf h0
         · leaf h0
       obtain ⟨k1, k2, k3, _⟩ := handleProcessorError_keeps f { ({ s with out := x :: s.out } : St) with proc := none }
-      refine ⟨(handleProcessorError_pres cfg f).step h1, k1, hb.imp (fun h => k3.trans h) (fun h => k2.trans h), ?_,
+      refine ⟨(handleProcessorError_pres cfg f (hnts f rfl)).step h1, k1, hb.imp (fun h => k3.trans h) (fun h => k2.trans h), ?_,
         hgp _ (KeepsP.trans (b := { ({ s with out := x :: s.out } : St) with proc := none }) ?_ (handleProcessorError_keepsP f _))⟩
       rotate_left
       · obtain ⟨k, t, rfl⟩ | rfl := hx
@@ -463,7 +490,7 @@ theorem procFired_good (g : Gen) (r : Option Fail) (x : Item) {s : St} (hs : G c
       · simp only [runR_cons, incStep_procCancel]
 
 /-- `stop()`: the block is dropped and the suspended generator's Deferred cancelled, together. -/
-theorem procFired_stop_good (g : Gen) (f : Fail) {s : St} (hs : G cfg s) (hp : s.proc = some g) (hst : s.stopping = true) :
+theorem procFired_stop_good (g : Gen) (f : Fail) (hf : f ≠ .tooSmall) {s : St} (hs : G cfg s) (hp : s.proc = some g) (hst : s.stopping = true) :
     Good cfg s (procFired cfg g (some f) (emit .procCancel (stopBlock s))) ∧
       (procFired cfg g (some f) (emit .procCancel (stopBlock s))).proc = none ∧
       (procFired cfg g (some f) (emit .procCancel (stopBlock s))).stopping = true ∧
@@ -480,7 +507,7 @@ theorem procFired_stop_good (g : Gen) (f : Fail) {s : St} (hs : G cfg s) (hp : s
     leaf h0
   obtain ⟨k1, k2, _, _⟩ := handleProcessorError_keeps f { emit .procCancel (stopBlock s) with proc := none }
   have hst' : (stopBlock s).stopping = true := by unfold stopBlock; split <;> exact hst
-  refine ⟨(handleProcessorError_pres cfg f).step h1, k1, k2.trans hst', ?_,
+  refine ⟨(handleProcessorError_pres cfg f hf).step h1, k1, k2.trans hst', ?_,
     hgp _ (KeepsP.trans (b := { emit .procCancel (stopBlock s) with proc := none }) ?_ (handleProcessorError_keepsP f _))⟩
   rotate_left
   · unfold stopBlock; split <;> simp only [KeepsP, emit, runR_cons, payStep_procCancel]
@@ -510,13 +537,14 @@ include hc in
 theorem procResult_good (g : Gen) (r : Option Fail) (x : Item) {s : St} (hs : G cfg s) (hp : s.proc = some g)
     (hb : s.msgBlock = true ∨ s.stopping = true)
     (hlc : x = .ob .procCancel ∨ (runR C03.ackStep {} s.out).lc = s.lastCommitted)
-    (hx : (r = none ∧ x = .ev .procOk) ∨ (r.isSome ∧ ((∃ k t, x = .ev (.procErr k t)) ∨ x = .ob .procCancel))) :
+    (hx : (r = none ∧ x = .ev .procOk) ∨ (r.isSome ∧ ((∃ k t, x = .ev (.procErr k t)) ∨ x = .ob .procCancel)))
+    (hnts : ∀ f, r = some f → f ≠ .tooSmall) :
     Good cfg s (procResult cfg inner g r { s with out := x :: s.out }) := by
   have hf : s.frame = none := by
     cases hff : s.frame with
     | none => rfl
     | some fr => exact absurd (hs.g1.frameProc (by rw [hff]; rfl)) (by rw [hp]; simp)
-  obtain ⟨g1, p1, b1, l1, y1⟩ := procFired_good hin g r x hs hp hb hlc hx
+  obtain ⟨g1, p1, b1, l1, y1⟩ := procFired_good hin g r x hs hp hb hlc hx hnts
   have h2 := fun p => procResume_good hin hc g p g1 p1 (by rw [g1.2]; exact hf) b1 l1 y1
   unfold procResult
   simp only []
